@@ -23,6 +23,8 @@ class Nest:
         self.by_header = {d['header']: d for d in self.loops}
         for d in self.loops:
             self._decorate(d)
+        self._fill = {}
+        self._fill_key = None
 
     # ------------------------------------------------------------------------------------------------------
     def _decorate(self, d):
@@ -76,7 +78,88 @@ class Nest:
         return inner['iter_def_bb'] is not None and inner['iter_def_bb'] in outer['loop']['body']
 
     # ------------------------------------------------------------------------------------------------------
-    def iteration(self, inner, stops, models=(), params=None, max_paths=400, opaque=(), havoc=None):
+    def _guided_model(self, enclosing):
+        """Model of Iterator::next for guided execution: enclosing loops yield one symbolic item (the element expression of a
+        symbolic sequence if the loop ranges over one), fill loops hand their sequence to the Vecs they fill, every other loop
+        is exhausted."""
+        from .sym import SYM, STRUCT, APP, NUM
+        enc_terms = {id(d['next_term']): d for d in enclosing}
+        all_next = {id(d['next_term']): d for d in self.loops}
+        fills = self._fill
+
+        def next_model(sx, st, name, declared, args, t):
+            from .sym import subst_value
+            if id(t) in enc_terms:
+                h = enc_terms[id(t)]['header']
+                item = SYM('item%d' % h)
+                it = args[0] if args else None
+                for _ in range(4):
+                    if isinstance(it, tuple) and it[0] == 'ref':
+                        it = sx.load(st, it)
+                if isinstance(it, tuple) and it[0] == 'sseq':
+                    # the loop ranges over a symbolic sequence: remember which, and hand out its element expression
+                    sub = {'$x': SYM('item%d' % h), '$i': SYM('idx%d' % h), '$o': SYM('outer%d' % h)}
+                    note = {'base': subst_value(it[1], sub), 'start': it[3]}
+                    if not hasattr(sx, 'loop_seq'):
+                        sx.loop_seq = {}
+                    sx.loop_seq[h] = note
+                    st.notes[('loop', h)] = note
+                    item = subst_value(it[2], sub)
+                return STRUCT('std::option::Option', ('Some', 1), [('0', item)])
+            if id(t) in all_next:
+                d = all_next[id(t)]
+                h = d['header']
+                if h in fills and d['some'] is not None and getattr(sx, '_fill_depth', 0) < 3:
+                    # a loop that may only fill Vecs (`for x in s { v.push(f(x)) }`, possibly nested): execute ONE iteration from
+                    # the current state with a symbolic item; if all it does is append the same thing to Vecs that were
+                    # empty, those Vecs receive the sequence the loop builds (v = s.map(f).collect())
+                    it = args[0] if args else None
+                    for _ in range(4):
+                        if isinstance(it, tuple) and it[0] == 'ref':
+                            it = sx.load(st, it)
+                    if isinstance(it, tuple) and it[0] == 'sseq':
+                        fid = min(st.frames)
+                        empties = [l for l, v in st.frames[fid].items() if v == ('seq', ())]
+                        if empties:
+                            s2 = st.fork()
+                            sub = {'$x': SYM('item%d' % h), '$i': SYM('idx%d' % h), '$o': SYM('outer%d' % h)}
+                            s2.frames[fid][t['dest']['l']] = STRUCT('std::option::Option', ('Some', 1), [('0', subst_value(it[2], sub))])
+                            sx._fill_depth = getattr(sx, '_fill_depth', 0) + 1
+                            saved_stop = sx.stop_blocks
+                            try:
+                                outs2 = sx.run_from(self.b, d['some'], s2, fid, {h})
+                            finally:
+                                sx._fill_depth -= 1
+                                sx.stop_blocks = saved_stop
+                            ch = None
+                            ok = bool(outs2)
+                            for o2 in outs2:
+                                if not (isinstance(o2.ret, tuple) and o2.ret[0] == 'stopped' and o2.ret[1] == h):
+                                    ok = False
+                                    break
+                                c2 = []
+                                for l in empties:
+                                    v = sx.deep(o2.st, o2.st.frames[fid].get(l))
+                                    if v != ('seq', ()):
+                                        c2.append((l, v))
+                                if ch is None:
+                                    ch = c2
+                                elif repr(ch) != repr(c2):
+                                    ok = False
+                            if ok and ch:
+                                back = {'item%d' % h: SYM('$x'), 'idx%d' % h: SYM('$i')}
+                                for l, v in ch:
+                                    if v[0] == 'seq' and len(v[1]) == 1:
+                                        e1 = subst_value(subst_value(v[1][0], {'item%d' % h: it[2]}), back)
+                                        st.frames[fid][l] = ('sseq', it[1], e1, it[3])
+                                    elif v[0] == 'sseq':
+                                        backo = {'item%d' % h: subst_value(it[2], {'$x': SYM('$o')}), 'idx%d' % h: SYM('$oi')}
+                                        st.frames[fid][l] = ('sseq', APP('flat', it[1], subst_value(v[1], backo)), subst_value(v[2], backo), NUM(0))
+                return STRUCT('std::option::Option', ('None', 0), [])
+            return None
+        return next_model
+
+    def iteration(self, inner, stops, models=(), params=None, max_paths=400, opaque=(), havoc=None, seq_sources=()):
         """Symbolic execution of ONE iteration of loop `inner` (a loop record): the function is executed from its entry with
         symbolic parameters, every enclosing loop is entered once with a fresh symbolic item `item<header>`, loops that do
         not enclose `inner` are skipped (their iterator is exhausted), and from the start of inner's body execution runs
@@ -88,14 +171,11 @@ class Nest:
         enc_terms = {id(d['next_term']): d for d in enclosing}
         all_next = {id(d['next_term']): d for d in self.loops}
 
-        def next_model(sx, st, name, declared, args, t):
-            if id(t) in enc_terms:
-                return STRUCT('std::option::Option', ('Some', 1), [('0', SYM('item%d' % enc_terms[id(t)]['header']))])
-            if id(t) in all_next:
-                return STRUCT('std::option::Option', ('None', 0), [])
-            return None
-        sx = SymEx(self.f, models=[next_model] + list(models), max_paths=max_paths, opaque=opaque)
+        next_model = self._guided_model(enclosing)
+        sx = SymEx(self.f, models=[next_model] + list(models), max_paths=max_paths, opaque=opaque, seq_sources=seq_sources)
+        sx.loop_seq = {}
         names = params or {}
+        from .sym import APP, NUM
         argv = [SYM(names.get(i) or b.local_name(i) or 'arg%d' % i) for i in b.args()]
         sx.stop_blocks = {inner['some']}
         outs0 = sx.run(b, argv)
@@ -107,25 +187,37 @@ class Nest:
             fid = min(o.st.frames)          # the outermost frame is the function's own
             for l, v in (havoc or {}).items():
                 o.st.frames[fid][l] = v
+            o.st.notes['empty-at-start'] = tuple(sorted(l for l, v in o.st.frames[fid].items() if v == ('seq', ())))
+            o.st.notes['pc-at-start'] = len(o.st.pc)
+            if inner['some'] in stops:
+                # the site of interest is the first block of the body: the arrival state is the outcome
+                from .sym import Outcome
+                res.append(Outcome(('stopped', inner['some']), list(o.st.pc), list(o.st.effects), o.st))
+                continue
             res += sx.run_from(b, inner['some'], o.st, fid, set(stops) | {inner['header']})
         return sx, res
 
-    def reach(self, bb, models=(), opaque=(), max_paths=400):
+    def summarise_fill_loops(self, opaque=(), seq_sources=()):
+        """Mark the loops that may be fill loops (`for x in s { v.push(f(x)) }`, possibly nested): loops whose body contains a
+        Vec::push / extend.  Whether one really is a fill loop is decided when guided execution meets it (see
+        _guided_model): one iteration is executed from the state at hand and must do nothing but append to empty Vecs."""
+        self._fill = {}
+        for d in self.loops:
+            for bi in d['loop']['body']:
+                t = self.b.blocks[bi]['term']
+                if t['t'] == 'call' and (callee_name(t) or '').endswith(('Vec::<T, A>::push', 'Extend::extend', '::extend', 'Vec::<T, A>::append')):
+                    self._fill[d['header']] = True
+        return self._fill
+
+    def reach(self, bb, models=(), opaque=(), max_paths=400, seq_sources=()):
         """Symbolic execution from the function entry to the entry of block bb: loops that enclose bb are entered once with a
         fresh symbolic item, every other loop is skipped.  Returns (sx, [Outcome stopped at bb])."""
         from .sym import SymEx, SYM, STRUCT
         b = self.b
         enclosing = [d for d in self.loops if bb in d['loop']['body']]
-        enc_terms = {id(d['next_term']): d for d in enclosing}
-        all_next = {id(d['next_term']): d for d in self.loops}
-
-        def next_model(sx, st, name, declared, args, t):
-            if id(t) in enc_terms:
-                return STRUCT('std::option::Option', ('Some', 1), [('0', SYM('item%d' % enc_terms[id(t)]['header']))])
-            if id(t) in all_next:
-                return STRUCT('std::option::Option', ('None', 0), [])
-            return None
-        sx = SymEx(self.f, models=[next_model] + list(models), max_paths=max_paths, opaque=opaque)
+        next_model = self._guided_model(enclosing)
+        sx = SymEx(self.f, models=[next_model] + list(models), max_paths=max_paths, opaque=opaque, seq_sources=seq_sources)
+        sx.loop_seq = {}
         argv = [SYM(b.local_name(i) or 'arg%d' % i) for i in b.args()]
         sx.stop_blocks = {bb}
         outs = sx.run(b, argv)
@@ -223,22 +315,26 @@ class Nest:
                 continue
             he = hit_edges(bi)
             feas = None
+            leaf_hit = {}
             if t['t'] == 'switch' and he is None and 'l' in t['discr'] and not t['discr']['p']:
                 vs = e.get(t['discr']['l'])
-                if vs is not None and vs <= frozenset(['T', 'F']) and t['discr'].get('ty') == 'bool':
-                    # a switch on a tracked bool: only the edges its possible values select are feasible
+                if vs is not None and vs <= frozenset(['T', 'F', 'L']) and t['discr'].get('ty') == 'bool':
+                    # a switch on a tracked bool: only the edges its possible values select are feasible; a value that is
+                    # "the leaf's result or false" (x && leaf(..)) selects the true edge only when the leaf returned true
                     feas = {}
                     arms = dict((v, x) for v, x in t['arms'])
                     zero_t = arms.get('0', t['otherwise'])
                     one_t = arms.get('1', t['otherwise'])
-                    if 'F' in vs:
+                    if 'F' in vs or 'L' in vs:
                         feas.setdefault(zero_t, set()).add('F')
-                    if 'T' in vs:
+                    if 'T' in vs or 'L' in vs:
                         feas.setdefault(one_t, set()).add('T')
+                        if 'T' not in vs:
+                            leaf_hit[one_t] = True
             for s2 in cfg.succ[bi]:
                 if feas is not None and s2 not in feas:
                     continue
-                h2 = hit or bool(he and he.get(s2))
+                h2 = hit or bool(he and he.get(s2)) or bool(leaf_hit.get(s2))
                 n2 = (s2, h2)
                 if feas is not None:
                     e = dict(e)
